@@ -49,7 +49,7 @@ fn download(body: &[u8], budget: usize, first_szx: Option<u8>) {
         let ctx = |what: &str| format!("{} body={} budget={} client_szx={:?} round={}", what, body.len(), budget, first_szx, round);
         loop {
             let blk = if num == 0 { szx.map(|s| BlockValue { num: 0, more: false, size_exponent: s }) } else { Some(BlockValue { num, more: false, size_exponent: szx.unwrap() }) };
-            let resp = match get(&mut h, mid, blk, body, &mut calls, budget) { Ok(r) => r, Err(e) => { if body.is_empty() && first_szx.is_some() { return; } found("download-error", ctx(&e)) } };
+            let resp = match get(&mut h, mid, blk, body, &mut calls, budget) { Ok(r) => r, Err(e) => found("download-error", ctx(&e)) };
             mid += 1;
             match resp.get_first_option_as::<BlockValue>(CoapOption::Block2) {
                 None => { if num != 0 { found("block2-missing", ctx("follow-up")); } got = resp.payload.clone(); break; }
